@@ -3,7 +3,7 @@ CONSTANTS
   Scenario = "small"
   MaxOps = 3
   CompSet = {"none", "static", "tree", "hash"}
-  TgtSet = {"vec", "array", "stream"}
+  TgtSet = {"array", "stream", "sarray"}
 SPECIFICATION Spec
 INVARIANT ParseBack
 INVARIANT CountsMatch
